@@ -89,7 +89,7 @@ PROTO = "rpyc/core/protocol.py::Connection."
 ATTR_FUNCS = [PROTO + n for n in ("_check_attr", "_access_attr", "_handle_getattr", "_handle_setattr", "_handle_delattr",
                                   "_handle_call", "_handle_callattr", "_handle_cmp", "_handle_ctxexit", "_handle_oldslicing")]
 SERVICE_HOOKS = ["rpyc/core/service.py::Service._rpyc_delattr", "rpyc/core/service.py::Service._rpyc_setattr"]
-ALL_CONTRACTS = ["brine", "compat", "externals", "stream", "channel", "protocol_attr", "colls", "protocol_box", "protocol_core", "async_", "protocol_close", "lib", "netref", "protocol_handlers", "scenarios", "vinegar", "classic", "registry", "server"]
+ALL_CONTRACTS = ["brine", "compat", "externals", "stream", "channel", "protocol_attr", "colls", "protocol_box", "protocol_core", "async_", "protocol_close", "lib", "netref", "protocol_handlers", "scenarios", "vinegar", "classic", "registry", "server", "protocol_init"]
 ALL_SPECS = ["brine_spec", "channel_spec", "policy_spec", "refcount_spec", "protocol_spec", "box_spec", "netref_spec", "vinegar_spec", "registry_spec", "server_spec"]
 
 PLANS["C06"] = dict(
@@ -221,7 +221,7 @@ PLANS["C03"] = dict(
     title="Immutable values travel by copy, everything else by reference; identity survives",
     contracts=ALL_CONTRACTS, specs=ALL_SPECS, table="module",
     targets=[BRINE + "dumpable", PROTO + "_box", PROTO + "_unbox", LIBF + "get_id_pack",
-             COLLS + "add", COLLS + "__getitem__", PROTO + "_handle_pickle", BN + "__reduce_ex__",
+             COLLS + "add", COLLS + "__getitem__", COLLS + "decref", PROTO + "_handle_pickle", BN + "__reduce_ex__",
              SCEN + "echo_returns_the_original", SCEN + "value_travels_by_copy", SCEN + "same_object_same_proxy",
              SCEN + "forged_reference_is_refused"],
     lemmas=BOX_LEMMAS, compositions=["C04/roundtrip"], native_focus=[], design_ref="DESIGN.md section 4, C03",
@@ -485,5 +485,27 @@ PLANS["C17"] = dict(
         "NOT covered (threads / OS, out of reach): that a shutdown makes the client observe end-of-stream promptly, descriptor "
         "accounting (contextlib.closing(sock) in the per-client finally is a no-op: the descriptor is released by the connection's "
         "teardown or by garbage collection), the forking server, accept loops under concurrent close, ThreadedServer's thread spawn",
+    ],
+)
+
+
+PLANS["C16"] = dict(
+    title="A server keeps serving good clients whatever bad clients do (partial: per-connection isolation and per-client bookkeeping)",
+    contracts=ALL_CONTRACTS, specs=ALL_SPECS, table="module",
+    targets=[PROTO + "__init__", "rpyc/lib/colls.py::RefCountingColl.__init__", "rpyc/lib/colls.py::WeakValueDict.__init__",
+             SRV + "Server._authenticate_and_serve_client"],
+    lemmas=[], compositions=[], native_focus=[], design_ref="DESIGN.md section 4, C16",
+    assumptions=COMMON_ASSUMPTIONS + [
+        "PARTIAL. VERIFIED: Connection.__init__ gives every connection its OWN, newly created and empty table of lent objects, "
+        "proxy cache, callback table, class cache, send queue, locks, sequence counter and configuration copy (nothing is shared "
+        "with another connection; the caller's config wins over the defaults) - `its own table of exported objects, so state and "
+        "references never leak from one client to another`; the per-client wrapper serves a client at most once, only after the "
+        "authenticator (when there is one) accepted exactly its socket, and forgets the socket on every exit",
+        "what a misbehaving client can SEND is covered elsewhere for every byte string: decoding never crashes (C04 / C05 safety "
+        "contracts: any input decodes to a plain value or raises; corrupt compressed data raises), every decoded message is "
+        "answered or ends only that one connection (C07 / C08 / C11)",
+        "NOT covered (threads / processes / OS, outside sequential contracts): that the accept loop keeps running while client "
+        "threads fail, that one client's thread cannot starve the others, the forking server, the thread pool's scheduling; "
+        "`its own service instance` (Service._connect on a class: hybridmethod + dynamic instantiation) is not under contract",
     ],
 )
